@@ -65,9 +65,17 @@ bool SimpleGramTokenizer::NextBatch(ColVal *colVal, uint32_t startRow, VToken *v
                 tokenStart = startloc;
                 continue;
             } else if (splitTable[c] > 1) {  // es. chinese character
-                token.Reinit(&colVal->val[tokenStart], splitTable[c]);
+                if (tokenStart < startloc) { // close the pending ASCII token first
+                    token.Reinit(&colVal->val[tokenStart], startloc - tokenStart);
+                    vtoken[i].Append(&token);
+                }
+                uint32_t width = splitTable[c];
+                if (startloc + width > endloc) { // truncated sequence: stay inside the value
+                    width = endloc - startloc;
+                }
+                token.Reinit(&colVal->val[startloc], width);
                 vtoken[i].Append(&token);
-                startloc += splitTable[c];
+                startloc += width;
                 tokenStart = startloc;
                 continue;
             }
